@@ -18,6 +18,14 @@
 (*            suffix / prefix / parent domain}; for hosts longer than      *)
 (*            ShapeLen only shapes with default ports and bare embedding   *)
 (*  literals  IPv4 / bracketed IPv6 hosts with and without ports           *)
+(*  ports     structured port variants on BOTH sides: Host port {none, :80, *)
+(*            :443, :81} x Origin port {none, 80, 443, 81, 82} x Origin    *)
+(*            scheme {http, https, ws, wss} (so that a port is absent,     *)
+(*            the default of the origin's scheme, the default of the other *)
+(*            scheme, or unrelated - on either side) x shapes with an      *)
+(*            authority, for short fold-variant pairs and the literals.    *)
+(*            "host (with port)" is compared as text: an explicit default  *)
+(*            port on one side only is a different origin.                 *)
 (* The model executes the policy (res = Expected) and the invariants       *)
 (* restate C13 independently of AFoldEq.                                   *)
 (* (generated from tools/upgrade-gen/MC_C13.tla.in: literals expanded)           *)
@@ -58,6 +66,11 @@ DotDom == <<46,101,120,97,109,112,108,101,46,116,101,115,116>>
 P81 == <<56,49>>
 P82 == <<56,50>>
 C81 == <<58,56,49>>
+Ws    == <<119,115>>
+Wss   == <<119,115,115>>
+Schemes == {Http, Https, Ws, Wss}
+HostPorts == {<< >>, <<58,56,48>>, <<58,52,52,51>>, C81}
+OrgPorts  == {<< >>, <<56,48>>, <<52,52,51>>, P81, P82}
 
 O(shape, scheme, y, port) ==
   LET o == [present |-> TRUE, shape |-> shape, scheme |-> scheme, y |-> y, port |-> port]
@@ -104,6 +117,11 @@ InitProg ==
   \* IP literals and names, with and without ports
   \/ \E hy \in Lits : \E sh \in {"plain", "userinfo", "path", "evil"} : \E hp \in {<< >>, C81} : \E op \in {<< >>, P81, P82} :
         prog = Pr(hy[1] \o hp, O(sh, Http, hy[2], op))
+  \* structured port variants on both sides x origin scheme (default port of the scheme or not)
+  \/ \E h \in HostsShape : \E y \in UVariants(h) : \E sh \in AuthShapes : \E sc \in Schemes : \E hp \in HostPorts : \E op \in OrgPorts :
+        prog = Pr(h \o hp, O(sh, sc, y, op))
+  \/ \E hy \in Lits \cup {<<Dom, Dom>>} : \E sh \in {"plain", "path"} : \E sc \in Schemes : \E hp \in HostPorts : \E op \in OrgPorts :
+        prog = Pr(hy[1] \o hp, O(sh, sc, hy[2], op))
   \/ prog = Pr(Dom, NoOrigin) \/ prog = Pr(<<97>>, NoOrigin)
 
 Init == InitProg /\ pc = 1 /\ res = "none"
